@@ -1140,3 +1140,118 @@ pub fn ref_mp4a(v: &Mp4aBox, out: &mut [u8]) -> usize {
     ref_mp4a_w(v, &mut w);
     w.p
 }
+
+// ------------------------------------------------------------------ containers (size = header + children)
+pub fn any_edts<const E: usize>(version: u8) -> EdtsBox {
+    EdtsBox { elst: Some(any_elst::<E>(version)) }
+}
+pub fn ref_edts(v: &EdtsBox, out: &mut [u8]) -> usize {
+    let mut w = RefW::new(out);
+    let s = w.begin(b"edts");
+    if let Some(ref e) = v.elst {
+        ref_elst_w(e, &mut w);
+    }
+    w.end(s);
+    w.p
+}
+pub fn any_mvex(with_mehd: Option<u8>) -> MvexBox {
+    MvexBox { mehd: with_mehd.map(any_mehd), trex: any_trex() }
+}
+pub fn ref_mvex(v: &MvexBox, out: &mut [u8]) -> usize {
+    let mut w = RefW::new(out);
+    let s = w.begin(b"mvex");
+    if let Some(ref m) = v.mehd {
+        ref_mehd_w(m, &mut w);
+    }
+    ref_trex_w(&v.trex, &mut w);
+    w.end(s);
+    w.p
+}
+/// traf: tfhd (+ tfdt) (+ trun with N samples carrying sizes and durations)
+pub fn any_traf<const N: usize>(tfdt: Option<u8>, trun: bool) -> TrafBox {
+    TrafBox { tfhd: any_tfhd(0x08), tfdt: tfdt.map(any_tfdt), trun: if trun { Some(any_trun::<N>(0x301)) } else { None } }
+}
+pub fn ref_traf_w(v: &TrafBox, w: &mut RefW) {
+    let s = w.begin(b"traf");
+    ref_tfhd_w(&v.tfhd, w);
+    if let Some(ref t) = v.tfdt {
+        ref_tfdt_w(t, w);
+    }
+    if let Some(ref t) = v.trun {
+        ref_trun_w(t, w);
+    }
+    w.end(s);
+}
+pub fn ref_traf(v: &TrafBox, out: &mut [u8]) -> usize {
+    let mut w = RefW::new(out);
+    ref_traf_w(v, &mut w);
+    w.p
+}
+/// moof: mfhd + T trafs (tfhd only)
+pub fn any_moof<const T: usize>() -> MoofBox {
+    let mut v = MoofBox { mfhd: any_mfhd(), trafs: Vec::new() };
+    let mut i = 0;
+    while i < T {
+        v.trafs.push(any_traf::<0>(None, false));
+        i += 1;
+    }
+    v
+}
+pub fn ref_moof(v: &MoofBox, out: &mut [u8]) -> usize {
+    let mut w = RefW::new(out);
+    let s = w.begin(b"moof");
+    ref_mfhd_w(&v.mfhd, &mut w);
+    let mut i = 0;
+    while i < v.trafs.len() {
+        ref_traf_w(&v.trafs[i], &mut w);
+        i += 1;
+    }
+    w.end(s);
+    w.p
+}
+/// moov without tracks: mvhd (+ mvex)
+pub fn any_moov_trackless(mvex: bool) -> MoovBox {
+    MoovBox { mvhd: any_mvhd(0), meta: None, mvex: if mvex { Some(any_mvex(None)) } else { None }, traks: Vec::new(), udta: None }
+}
+pub fn ref_moov(v: &MoovBox, out: &mut [u8]) -> usize {
+    let mut w = RefW::new(out);
+    let s = w.begin(b"moov");
+    let mut tmp = [0u8; 128];
+    let n = ref_mvhd(&v.mvhd, &mut tmp);
+    w.bytes(&tmp[..n]);
+    if let Some(ref m) = v.mvex {
+        let mut t2 = [0u8; 64];
+        let n2 = ref_mvex(m, &mut t2);
+        w.bytes(&t2[..n2]);
+    }
+    w.end(s);
+    w.p
+}
+pub fn any_udta_empty() -> UdtaBox {
+    UdtaBox { meta: None }
+}
+pub fn ref_udta(v: &UdtaBox, out: &mut [u8]) -> usize {
+    let mut w = RefW::new(out);
+    let s = w.begin(b"udta");
+    w.end(s);
+    w.p
+}
+/// stsd with one sample entry
+pub fn any_stsd_mp4a() -> StsdBox {
+    StsdBox { version: kani::any(), flags: any_flags24(), avc1: None, hev1: None, vp09: None, mp4a: Some(any_mp4a(false)), tx3g: None }
+}
+pub fn any_stsd_tx3g() -> StsdBox {
+    StsdBox { version: kani::any(), flags: any_flags24(), avc1: None, hev1: None, vp09: None, mp4a: None, tx3g: Some(any_tx3g()) }
+}
+pub fn ref_stsd(v: &StsdBox, out: &mut [u8]) -> usize {
+    let mut w = RefW::new(out);
+    let s = w.begin_full(b"stsd", v.version, v.flags);
+    w.u32(1);
+    if let Some(ref m) = v.mp4a {
+        ref_mp4a_w(m, &mut w);
+    } else if let Some(ref t) = v.tx3g {
+        ref_tx3g_w(t, &mut w);
+    }
+    w.end(s);
+    w.p
+}
